@@ -37,6 +37,7 @@ RULE = ('Constraint sets in the documented format: (a) hand-built by the C02 '
         'and >=1 verdict decided by data; distinct by case hash.')
 RULE += ' ' + "Also: the serialised text must say what the set given says (same fields in order, same kinds, same values, date bounds compared as instants); the file rewritten in place after a same-size decoy was loaded from the same path; the caller's dictionary unchanged after loading and verifying; relation names (lt, gte, eq ...) among the unknown kinds; microsecond values that are not exact binary fractions."
 RULE += ' ' + 'Round 7: a copy of the written file loaded from another path must serialise to the identical text (recorded tddafile included); unknown kinds include other spellings of standard kinds (max-length, no-duplicates, MAX, maxLength ...).'
+RULE += ' ' + 'Round 8: date bounds of hand-written sets are also judged from the written value against the data (reference model), not only compared between input forms; field names in decomposed Unicode form.'
 ASSUMPTIONS = ['the text written with to_json(tddafile=path) is compared for '
                'write/load cycles on the same path and for a copy of the '
                'file loaded from another path (the recorded name travels '
